@@ -1592,17 +1592,8 @@ class CCVS(DependentSource):
         mna._D[m1, m2] -= H
 
         ccpt = self.cct.elements[cname]
-        if ccpt.is_voltage_source:
-            return
-        # Controlling node indices
-        n3, n4 = [mna._node_index(name) for name in ccpt.node_names[0:2]]
-
-        if n3 >= 0:
-            mna._B[n3, m2] += 1
-            mna._C[m2, n3] += 1
-        if n4 >= 0:
-            mna._B[n4, m2] -= 1
-            mna._C[m2, n4] -= 1
+        if not ccpt.is_voltage_source:
+            raise ValueError('The controlling component for %s must be a voltage source' % self)
 
     def _kill(self):
         newopts = self.opts.copy()
